@@ -21,6 +21,17 @@
 // (payload.go); read buffers are pre-filled with its complement. The wire delivers whole queues, drawn fragments or 1-3
 // bytes at a time.
 //
+// Two writer tasks on one connection (bare connections only, drawn with 1/3, not in the stall stratum): net.Conn says
+// "Multiple goroutines may invoke methods on a Conn simultaneously", and with several writers "in order" can only be
+// read per Write call - READING TAKEN: the bytes of one accepted Write arrive contiguous and complete; whole writes
+// of the two writers may follow each other in any order that keeps each writer's own order. The payload is then keyed
+// per WRITE (writer, index of the write, offset in it) and the reader keeps every admissible parse of what it has read
+// as a concatenation of whole writes (oracle.go, "dual mode"). Streams are not given a second writer: yamux makes no
+// such promise (a stream Write is sent as several frames without a stream-wide lock).
+//
+// Zero-length read buffers are part of the drawn buffer cycles in every layer (at most 24 per reader): such a Read must
+// return n = 0 and change nothing - whatever it does to the layer's state shows in the reads that follow.
+//
 // Drawn in every stratum (no faults, part of "every underlying connection"): each raw endpoint may return the last
 // bytes of the stream TOGETHER with io.EOF in one Read call (simnet SetEOFWithData; the io.Reader contract allows it).
 // Noise-based layers get a prelude of 0-3 sacrificial bare Noise sessions that are closed while plaintext of a partially
@@ -46,6 +57,9 @@
 //	                                        reader's offset (prefix oracle; the first wrong offset and where the bytes
 //	                                        come from are reported). Holds in every stratum.
 //	C02/more-than-written/<lay><ctx>        ... and had been handed to Write before the Read returned.
+//	C02/write-not-atomic/<lay><ctx>         two writers: in the middle of one accepted Write the stream goes on with the
+//	                                        beginning of a write of the other writer.
+//	C02/wrong-bytes/<lay>/two-writers<ctx>  two writers: the stream is not a concatenation of whole writes in any other way.
 //	C02/read-count-out-of-range, C02/read-wrote-past-buffer   n outside [0, len(buf)]; bytes behind len(buf) changed.
 //	C02/write-count-out-of-range, C02/short-write-without-error, C02/write-modified-buffer   io.Writer contract.
 //	C02/premature-eof/<lay>/<eof-alone|eof-with-data>/<before-close|bytes-missing><ctx>
@@ -121,6 +135,9 @@
 //	     wrong-bytes/noise[/after-tamper], wrong-bytes/mux-noise, incomplete/*-noise/*, hang/host-noise (needs the prelude and the
 //	     per-run pool reset; some of the minimised tapes do not reproduce in a fresh process because sync.Pool is not deterministic)
 //	S2   pnet Read returns before the XOR when data and error arrive in one call    run 0: wrong-bytes/pnet (needs SetEOFWithData)
+//	S3   noise Write takes writeLock per Noise message instead of per call         30 s: write-not-atomic/noise[/after-*] (needs two writers)
+//	S4   noise Read falls through to the wire when the queue path copied 0 bytes   run 9: wrong-bytes/noise, incomplete/noise/short, ... (needs
+//	     zero-length reads; with two writers the hole is reported as write-not-atomic)
 package c02
 
 import (
@@ -237,6 +254,17 @@ func run(t *testing.T, tape *simrt.Tape) *common.Outcome {
 		}
 	}
 	w.pending.Store(int64(4 * p.nstreams))
+	for s := range w.chans {
+		for d := 0; d < 2; d++ {
+			c := w.chans[s][d]
+			c.wLeft.Store(int32(c.nWriters()))
+			c.closeLeft.Store(int32(c.nWriters()))
+			if c.p.dual {
+				w.pending.Add(1)
+				w.probes["two-writers-on-one-connection"]++
+			}
+		}
+	}
 
 	res := simrt.Run(t, simrt.Config{MaxSteps: 3000000, IdleLimit: 2 * time.Hour, TraceCap: 20000}, tape.S, func() { w.main(tape) })
 
@@ -482,7 +510,7 @@ func (w *world) acceptB(s int, st network.Stream) {
 	rc, wc := w.chans[s][0], w.chans[s][1]
 	rc.rStarted, wc.wStarted = true, true
 	simrt.GoNamed(fmt.Sprintf("read-B-s%d", s), func() { rc.reader(e) })
-	simrt.GoNamed(fmt.Sprintf("write-B-s%d", s), func() { wc.writer(e) })
+	simrt.GoNamed(fmt.Sprintf("write-B-s%d", s), func() { wc.writer(e, 0) })
 }
 
 // ---- the run ----------------------------------------------------------------------------------
@@ -538,16 +566,22 @@ func (w *world) main(tape *simrt.Tape) {
 		eB := w.connEnd(w.connB, w.rawB)
 		ab, ba := w.chans[0][0], w.chans[0][1]
 		ab.wStarted, ab.rStarted, ba.wStarted, ba.rStarted = true, true, true, true
-		simrt.GoNamed("write-A", func() { ab.writer(eA) })
+		simrt.GoNamed("write-A", func() { ab.writer(eA, 0) })
+		if ab.p.dual {
+			simrt.GoNamed("write-A2", func() { ab.writer(eA, 1) })
+		}
+		if ba.p.dual {
+			simrt.GoNamed("write-B2", func() { ba.writer(eB, 1) })
+		}
 		simrt.GoNamed("read-B", func() { ab.reader(eB) })
-		simrt.GoNamed("write-B", func() { ba.writer(eB) })
+		simrt.GoNamed("write-B", func() { ba.writer(eB, 0) })
 		simrt.GoNamed("read-A", func() { ba.reader(eA) })
 	} else {
 		for s := 0; s < p.nstreams; s++ {
 			e := streamEnd(w.strA[s])
 			wc, rc := w.chans[s][0], w.chans[s][1]
 			wc.wStarted, rc.rStarted = true, true
-			simrt.GoNamed(fmt.Sprintf("write-A-s%d", s), func() { wc.writer(e) })
+			simrt.GoNamed(fmt.Sprintf("write-A-s%d", s), func() { wc.writer(e, 0) })
 			simrt.GoNamed(fmt.Sprintf("read-A-s%d", s), func() { rc.reader(e) })
 		}
 	}
@@ -776,6 +810,7 @@ func (w *world) teardown() {
 	for s := range w.chans {
 		for d := 0; d < 2; d++ {
 			c := w.chans[s][d]
+			c.collectWriters()
 			if c.rEnd != "eof" || c.wErr != "" {
 				clean = false
 			}
@@ -896,6 +931,7 @@ func (w *world) finish(res simrt.Result) {
 		for d := 0; d < 2; d++ {
 			c := w.chans[s][d]
 			cp := c.p
+			c.collectWriters()
 			totalData += c.dataReads
 			sig = append(sig, fmt.Sprintf("%s:%d/%d/%d r%d %s w=%s t%d", c.id, cp.total, c.accepted, c.off, c.reads, c.rEnd, c.wErr, c.timeouts))
 			for _, wr := range cp.writes {
@@ -914,8 +950,13 @@ func (w *world) finish(res simrt.Result) {
 				w.probes["final-bytes-and-eof-in-one-read"]++
 			}
 			nv := len(o.Violations)
-			for _, v := range append(append([]common.Violation(nil), c.rviol...), c.wviol...) {
+			for _, v := range c.rviol {
 				w.violate(v.Class, v.Detail)
+			}
+			for i := 0; i < c.nWriters(); i++ {
+				for _, v := range c.ws[i].viol {
+					w.violate(v.Class, v.Detail)
+				}
 			}
 			if judged {
 				w.judge(c, faulted, advFired, stallFired)
@@ -923,7 +964,9 @@ func (w *world) finish(res simrt.Result) {
 			bad := len(o.Violations) > nv || c.rEnd == "deadline-mid-frame"
 			o.Logf("result %s: planned=%d accepted=%d delivered=%d reads=%d timeouts=%d reader=%s%s writer=%s%s started r=%v w=%v done r=%v w=%v",
 				c.id, cp.total, c.accepted, c.off, c.reads, c.timeouts, orDash(c.rEnd), paren(c.rErrText), orDash(c.wErr), paren(c.wErrText), c.rStarted, c.wStarted, c.rDone.Load(), c.wDone.Load())
-			w.dump(c.id+" W", c.wlog.lines(), bad)
+			for i := 0; i < c.nWriters(); i++ {
+				w.dump(fmt.Sprintf("%s W%d", c.id, i), c.ws[i].log.lines(), bad)
+			}
 			w.dump(c.id+" R", c.rlog.lines(), bad)
 		}
 	}
